@@ -11,7 +11,10 @@
 //!           every query runs embedded (`LocustDB::run_query`) and through `/query`, `/query_cols`,
 //!           `/multi_query_cols` (JSON; binary with / without xor compression, mantissa, full-precision
 //!           columns; the real `LoggingClient::multi_query`), on one reqwest connection pool, inserts and
-//!           queries interleaved; failing queries must give an error status and the next request an answer.
+//!           queries interleaved; failing queries must give an error status and the next request an answer;
+//!           `intlayouts`: tables with one integer column per wire layout of api.rs (range, delta / double-delta
+//!           i8/i16/i32, raw i64) and columns on the ladder's thresholds; for every integer column of every capnp
+//!           response an `intwire` case with the layout read off the response bytes.
 //!
 //! Model line = `<kind> <inputs…> :: <implementation output>`; the Lean driver prints the model's prediction
 //! of the implementation output (exact text) and the specification's verdict on it.
@@ -23,6 +26,7 @@ use std::time::Duration;
 use vharness::locustdb::logging_client::{BufferFullPolicy, LoggingClient};
 use vharness::locustdb::{BasicTypeColumn, LocustDB, Options, QueryError, QueryOutput, Value};
 use vharness::locustdb_serialization::api::{AnyVal, Column, EncodingOpts, MultiQueryRequest, MultiQueryResponse, QueryRequest, QueryResponse};
+use vharness::locustdb_serialization::api_capnp;
 use vharness::*;
 
 const REQ_DEADLINE: Duration = Duration::from_secs(60);
@@ -435,6 +439,118 @@ fn gen_unit_status(cases: &mut Cases) {
 }
 
 // ------------------------------------------------------------------------------------------------
+// integer wire layouts (api.rs: Column::serialize_builder, arm Column::Int)
+
+fn ilist<T: std::fmt::Display>(xs: impl Iterator<Item = T>) -> String {
+    let v: Vec<String> = xs.map(|x| x.to_string()).collect();
+    if v.is_empty() { "[]".into() } else { v.join(",") }
+}
+
+/// Union member + payload of one capnp column, `None` for a column that is not an integer column.
+/// Same text as C16's `ints` stream (`range:<start>:<len>:<step>`, `d8:<first>:<data>`, `dd16:<first>:<second>:<data>`, `plain:<xs>`).
+fn layout_tok(col: api_capnp::column::Reader) -> Option<String> {
+    use api_capnp::column::data::Which;
+    Some(match col.get_data().which().ok()? {
+        Which::I64(xs) => format!("plain:{}", ilist(xs.ok()?.iter())),
+        Which::Range(r) => format!("range:{}:{}:{}", r.get_start(), r.get_len(), r.get_step()),
+        Which::DeltaEncodedI8(d) => format!("d8:{}:{}", d.get_first(), ilist(d.get_data().ok()?.iter())),
+        Which::DeltaEncodedI16(d) => format!("d16:{}:{}", d.get_first(), ilist(d.get_data().ok()?.iter())),
+        Which::DeltaEncodedI32(d) => format!("d32:{}:{}", d.get_first(), ilist(d.get_data().ok()?.iter())),
+        Which::DoubleDeltaEncodedI8(d) => format!("dd8:{}:{}:{}", d.get_first(), d.get_second(), ilist(d.get_data().ok()?.iter())),
+        Which::DoubleDeltaEncodedI16(d) => format!("dd16:{}:{}:{}", d.get_first(), d.get_second(), ilist(d.get_data().ok()?.iter())),
+        Which::DoubleDeltaEncodedI32(d) => format!("dd32:{}:{}:{}", d.get_first(), d.get_second(), ilist(d.get_data().ok()?.iter())),
+        _ => return None,
+    })
+}
+
+/// Per response of a `/multi_query_cols` capnp body: column name → integer layout as it is ON THE WIRE
+/// (read with the capnp reader, not with the client's decoder).
+fn observe_int_layouts(bytes: &[u8]) -> Option<Vec<Vec<(String, String)>>> {
+    let reader = capnp::serialize_packed::read_message(bytes, vharness::locustdb_serialization::default_reader_options()).ok()?;
+    let mqr = reader.get_root::<api_capnp::multi_query_response::Reader>().ok()?;
+    let mut out = vec![];
+    for resp in mqr.get_responses().ok()?.iter() {
+        let mut cols = vec![];
+        for col in resp.get_columns().ok()?.iter() {
+            let name = col.get_name().ok()?.to_string().ok()?;
+            if let Some(l) = layout_tok(col) { cols.push((name, l)); }
+        }
+        out.push(cols);
+    }
+    Some(out)
+}
+
+/// The layout the real serializer picks for `xs` (for responses whose bytes the harness does not see: the real client).
+fn local_layout(xs: &[i64]) -> String {
+    let resp = MultiQueryResponse { responses: vec![QueryResponse { columns: HashMap::from([("c".to_string(), Column::Int(xs.to_vec()))]) }] };
+    match catch_unwind(AssertUnwindSafe(|| resp.serialize())) {
+        Err(_) => "panic-enc".into(),
+        Ok(b) => observe_int_layouts(&b).and_then(|r| r.into_iter().next()).and_then(|c| c.into_iter().next()).map(|c| c.1).unwrap_or("unreadable".into()),
+    }
+}
+fn layout_tag(l: &str) -> &str { l.split(':').next().unwrap_or("?") }
+
+const LAYOUTS: &[&str] = &["range", "d8", "dd8", "d16", "dd16", "d32", "dd32", "plain"];
+const INGEST_BOUND: i64 = 1 << 61;
+/// Ladder thresholds ±1 (first or second differences exactly there decide between two neighbouring layouts).
+const BOUNDS: &[i64] = &[127, 128, -128, -129, 32767, 32768, -32768, -32769, 2147483647, 2147483648, -2147483648, -2147483649, 126, -127, 0, 1, -1];
+
+fn walk(start: i64, deltas: &[i64]) -> Option<Vec<i64>> {
+    let mut v = vec![start];
+    let mut cur = start;
+    for d in deltas { cur = cur.checked_add(*d)?; if cur.abs() >= INGEST_BOUND { return None; } v.push(cur); }
+    Some(v)
+}
+
+/// `n >= 3` integers (|x| < 2^61) for which the REAL serializer picks `target`; the recipe follows the ladder
+/// (first differences d, second differences dd; cf. C16's delta-class random walks), the label is checked on the real code.
+fn seq_for_layout(rng: &mut Rng, target: &str, n: usize) -> Vec<i64> {
+    let (i8r, i16r, i32r) = ((-128i64, 127i64), (-32768i64, 32767i64), (-2147483648i64, 2147483647i64));
+    let edge = |rng: &mut Rng, r: (i64, i64)| match rng.below(4) { 0 => r.0, 1 => r.1, _ => rng.range(r.0, r.1) };
+    for _ in 0..200 {
+        let start = match rng.below(4) { 0 => 0, 1 => rng.range(-1000, 1000), 2 => 1_700_000_000_000 + rng.range(0, 1 << 30), _ => rng.range(-(1 << 59), 1 << 59) };
+        let slopes: &[i64] = &[300, -300, 40_000, -40_000, 100_000, 1 << 20, 1 << 33, -(1 << 33), 1 << 40, 1 << 50];
+        let deltas: Vec<i64> = match target {
+            "range" => { let s = *rng.pick(&[0i64, 1, -1, 127, 128, 1000, 1 << 31, -(1 << 40), 1 << 52]); vec![s; n - 1] }
+            "d8" => (1..n).map(|_| edge(rng, i8r)).collect(),
+            "d16" => (1..n).map(|_| edge(rng, i16r)).collect(),
+            "d32" => (1..n).map(|_| edge(rng, i32r)).collect(),
+            "dd8" | "dd16" | "dd32" => {
+                let r = match target { "dd8" => i8r, "dd16" => i16r, _ => i32r };
+                let mut d = *rng.pick(slopes);
+                let mut v = vec![d];
+                for _ in 2..n { d = d.wrapping_add(edge(rng, r)); v.push(d); }
+                v
+            }
+            _ => (1..n).map(|i| { let m = rng.range(1 << 34, 1 << 58); if i % 2 == 0 { m } else { -m } }).collect(),
+        };
+        if let Some(v) = walk(start, &deltas) { if layout_tag(&local_layout(&v)) == target { return v; } }
+    }
+    // never reached for n >= 3 (each recipe hits its layout with high probability); keep the stream total
+    (0..n as i64).collect()
+}
+
+/// Sequences whose first / second differences sit exactly on the ladder's thresholds (whatever layout results).
+fn seq_boundary(rng: &mut Rng, n: usize) -> Vec<i64> {
+    for _ in 0..50 {
+        let start = *rng.pick(&[0i64, -5, 1 << 40, -(1 << 59), 1_700_000_000_000]);
+        let deltas: Vec<i64> = if rng.chance(1, 2) {
+            let (b, c) = (*rng.pick(BOUNDS), *rng.pick(BOUNDS));
+            (1..n).map(|i| if i % 2 == 1 { b } else { c }).collect()
+        } else {
+            let mut d = *rng.pick(&[1i64 << 33, -(1 << 33), 1 << 20, 40000, 300, 0]);
+            let mut v = vec![d];
+            for _ in 2..n { d += *rng.pick(BOUNDS); v.push(d); }
+            v
+        };
+        if let Some(v) = walk(start, &deltas) { return v; }
+    }
+    vec![0; n]
+}
+
+fn nclass(n: usize) -> &'static str { match n { 0 => "n0", 1 => "n1", 2 => "n2", 3 => "n3", _ => "n4+" } }
+
+// ------------------------------------------------------------------------------------------------
 // e2e stream
 
 /// `db` is shared with the server; `twin` is a second database that receives the same batches through the
@@ -649,6 +765,29 @@ impl<'a> Ctx<'a> {
         let class = format!("e2e:{}:ok:{}{}", ep, col_kinds(&all_cols), match &bin { Some(b) => format!(":{}{}{}", if b.xor { "xor" } else { "plain" }, match b.mantissa { None => "".to_string(), Some(m) => format!(":m{}", m / 13 * 13) }, if b.fp.is_empty() { "" } else { ":fp" }), None => String::new() });
         let blocks = outs.iter().map(|o| format!("cols {} {}", names_tok(&o.colnames), named(&o.columns))).collect::<Vec<_>>().join(" ;; ");
         self.cases.push(&class, &format!("e2e {} {}{} {} :: {}", ep, k, opt_tok, blocks, out), &out, &note);
+        // one case per integer result column of a binary response: the layout on the wire and what the client decoded
+        if let (Some(b), Http::Resp(200, body), Some(Ok(rs))) = (&bin, &resp, client_view.as_ref()) {
+            let wire = if via_client.is_none() { observe_int_layouts(body) } else { None };
+            for (i, o) in outs.iter().enumerate() {
+                for (name, col) in &o.columns {
+                    let xs: Vec<i64> = match col {
+                        BasicTypeColumn::Int(v) => v.clone(),
+                        BasicTypeColumn::Mixed(v) if !v.is_empty() && v.iter().all(|x| matches!(x, Value::Int(_))) => v.iter().map(|x| if let Value::Int(i) = x { *i } else { 0 }).collect(),
+                        _ => continue,
+                    };
+                    if o.columns.iter().filter(|c| &c.0 == name).count() != 1 { continue; }
+                    let lay = match (&wire, via_client) {
+                        (Some(w), _) => w.get(i).and_then(|cs| cs.iter().find(|c| &c.0 == name)).map(|c| c.1.clone()).unwrap_or("not-an-int-column".into()),
+                        (None, Some(_)) => local_layout(&xs),
+                        (None, None) => "unreadable".into(),
+                    };
+                    let got = match rs.get(i).and_then(|r| r.columns.get(name)) { Some(Column::Int(v)) => format!("ok:{}", ilist(v.iter())), Some(c) => wcoltok(c), None => "lost".into() };
+                    let o2 = format!("{} => {}", lay, got);
+                    let cl = format!("e2e:{}:intwire:{}:{}:{}", ep, layout_tag(&lay), nclass(xs.len()), if b.xor { "xor" } else { "plain" });
+                    self.cases.push(&cl, &format!("e2e intwire {} {} :: {}", ep, ilist(xs.iter()), o2), &o2, &format!("{} | column {} of response {}", note, name, i));
+                }
+            }
+        }
         if out == "dropped" || out.starts_with("200 client") {
             // a server- or client-side panic: the next request must still be answered
             let nx = self.next_ok().await;
@@ -900,6 +1039,52 @@ async fn witness_extremes(srv: &Server, http: &reqwest::Client, cases: &mut Case
     }
 }
 
+/// Every integer wire layout end to end: tables whose integer columns make the server's serializer pick range, delta
+/// i8/i16/i32, double-delta i8/i16/i32 and raw i64 (plus columns sitting on the ladder's thresholds), queried whole,
+/// as a prefix and reversed through /multi_query_cols capnp (plain, xor, xor + mantissa, mantissa only, full-precision
+/// list), the real client, and the JSON endpoints.  The layout in the class name is read off the response bytes.
+async fn int_layouts(srv: &Server, http: &reqwest::Client, cases: &mut Cases, rng: &mut Rng, tables: usize) {
+    let mut ctx = Ctx { srv, http, cases, tag: "intlayouts".into() };
+    let probe = Batch { table: "probe".into(), len: 1, cols: vec![("nxt".into(), ColRep::I64(vec![7]))] };
+    if !ctx.insert_raw(&[probe], "probe").await { return; }
+    let client = LoggingClient::new(Duration::from_secs(3600), &srv.base, 1 << 30, BufferFullPolicy::Drop, None);
+    // lengths 1 and 2: raw i64 resp. always range
+    for (t, xs) in [("lay_n1", vec![1_700_000_000_123i64]), ("lay_n2", vec![-40_000, 1 << 40])] {
+        let b = Batch { table: t.into(), len: xs.len() as u64, cols: vec![("id".into(), ColRep::I64((0..xs.len() as i64).collect())), ("v".into(), ColRep::I64(xs))] };
+        if !ctx.insert_raw(&[b], "short integer column").await { return; }
+        ctx.tag = format!("intlayouts {}", t);
+        let q = format!("SELECT v FROM {}", t);
+        for xor in [false, true] { ctx.q_multi(&[q.clone()], Some(BinOpts { xor, mantissa: None, fp: vec![] }), None).await; }
+        ctx.q_multi(&[q.clone()], Some(BinOpts { xor: true, mantissa: None, fp: vec![] }), Some(&client)).await;
+    }
+    for t in 0..tables {
+        let n = [3usize, 4, 5, 9, 33, 6, 3, 17, 4, 40][t % 10];
+        let tname = format!("lay{}", t);
+        let mut cols: Vec<(String, ColRep)> = vec![("id".into(), ColRep::I64((0..n as i64).collect()))];
+        for l in LAYOUTS { cols.push((format!("c_{}", l), ColRep::I64(seq_for_layout(rng, l, n)))); }
+        for j in 0..3 { cols.push((format!("b{}", j), ColRep::I64(seq_boundary(rng, n)))); }
+        let names: Vec<String> = cols.iter().map(|c| c.0.clone()).collect();
+        if !ctx.insert_raw(&[Batch { table: tname.clone(), len: n as u64, cols }], &format!("{} rows, one column per integer layout", n)).await { return; }
+        if t % 2 == 1 {
+            for d in [srv.db.clone()] { if with_deadline(60, move || d.force_flush()).is_none() { eprintln!("c17: flush hang in intlayouts {}", t); return; } }
+        }
+        ctx.tag = format!("intlayouts {} rows={}{}", tname, n, if t % 2 == 1 { " flushed" } else { "" });
+        let all = format!("SELECT {} FROM {}", names.join(", "), tname);
+        let prefix = format!("SELECT {} FROM {} WHERE id < {}", names[1..].join(", "), tname, 3 + rng.below(n as u64 - 2));
+        let rev = format!("SELECT {} FROM {} ORDER BY id DESC LIMIT {}", names[1..].join(", "), tname, n);
+        let fp: Vec<String> = names.iter().filter(|_| rng.chance(1, 2)).cloned().collect();
+        ctx.q_multi(&[all.clone()], Some(BinOpts { xor: false, mantissa: None, fp: vec![] }), None).await;
+        ctx.q_multi(&[all.clone(), prefix.clone()], Some(BinOpts { xor: true, mantissa: None, fp: vec![] }), None).await;
+        ctx.q_multi(&[rev.clone()], Some(BinOpts { xor: true, mantissa: Some(*rng.pick(&[0u32, 10, 23, 52])), fp }), None).await;
+        ctx.q_multi(&[prefix.clone(), rev.clone()], Some(BinOpts { xor: false, mantissa: Some(7), fp: vec![] }), None).await;
+        ctx.q_multi(&[all.clone(), rev.clone()], Some(BinOpts { xor: true, mantissa: None, fp: vec![] }), Some(&client)).await;
+        ctx.q_multi(&[all.clone()], None, None).await;
+        ctx.q_cols(&rev).await;
+        ctx.q_rows(&prefix).await;
+    }
+    let _ = tokio::time::timeout(Duration::from_secs(30), tokio::task::spawn_blocking(move || drop(client))).await;
+}
+
 /// Inserts into table `u` concurrently with queries on table `t` (whose content does not change): every
 /// response must equal the embedded answer; afterwards `u` holds every inserted row exactly once.
 async fn concurrent(srv: &Server, http: &reqwest::Client, cases: &mut Cases, rng: &mut Rng, rounds: usize) {
@@ -963,6 +1148,12 @@ fn main() {
                 if std::env::var("C17_TIMING").is_ok() { eprintln!("failing {:?} http {} ms / {} reqs", t0.elapsed(), T_HTTP.load(std::sync::atomic::Ordering::Relaxed) / 1000, N_HTTP.load(std::sync::atomic::Ordering::Relaxed)); }
                 witness_extremes(&srv, &http, &mut cases).await;
                 if std::env::var("C17_TIMING").is_ok() { eprintln!("witness {:?} http {} ms / {} reqs", t0.elapsed(), T_HTTP.load(std::sync::atomic::Ordering::Relaxed) / 1000, N_HTTP.load(std::sync::atomic::Ordering::Relaxed)); }
+                srv.handle.stop(false).await;
+            } else { cases.push("e2e:server-start", "e2e start :: failed", "failed", ""); }
+            if let Some(srv) = start_server() {
+                let t0 = std::time::Instant::now();
+                int_layouts(&srv, &http, &mut cases, &mut Rng::new(args.seed ^ 0x1a70_c17), if thorough { 120 } else { 10 }).await;
+                if std::env::var("C17_TIMING").is_ok() { eprintln!("intlayouts {:?}", t0.elapsed()); }
                 srv.handle.stop(false).await;
             } else { cases.push("e2e:server-start", "e2e start :: failed", "failed", ""); }
             let groups = if thorough { 12 } else { 3 };
